@@ -1,6 +1,7 @@
 import PW.Proofs.MixedRadix
 import PW.Proofs.SpecLemmas
 import PW.OpModel
+import PW.Props.Tables
 /-!
 # C10 — Fock-space truncation never silently loses state
 
@@ -46,6 +47,23 @@ theorem beam_splitter_cutoff (q₁ q₂ : Nat) (old : List Nat) :
     OpModel.dimsFor .beamSplitter [q₁, q₂] [q₁ + 1, q₂ + 1] old = [q₁ + q₂ + 1, q₁ + q₂ + 1] := by
   simp [OpModel.dimsFor]
 
+/-- the shrink decision (model): allowed iff the highest occupied level fits into the new dimension -/
+def shrinkAllowed (highestOccupied newDim : Nat) : Bool := decide (highestOccupied < newDim)
+
+/-- an allowed shrink cuts only levels above the highest occupied one -/
+theorem allowed_shrink_keeps_every_occupied_level (q d k : Nat) (h : shrinkAllowed q d = true) (hk : k ≤ q) : k < d := by
+  simp only [shrinkAllowed, decide_eq_true_eq] at h
+  omega
+
+/-- a request for exactly the highest occupied level (or less) is refused -/
+theorem shrink_to_occupied_level_refused (q d : Nat) (h : d ≤ q) : shrinkAllowed q d = false := by
+  simp only [shrinkAllowed, decide_eq_false_iff_not]
+  omega
+
+/-- every shrink decision in the source (regenerated on every run) is this rule -/
+theorem source_shrink_decisions : PW.Generated.resizeGuards.all PW.TablesSpec.shrinkRuleOk = true :=
+  PW.Props.Tables.resize_guards_are_the_rule
+
 end PW.Props.C10
 
 #print axioms PW.Props.C10.padding_is_zero
@@ -54,3 +72,6 @@ end PW.Props.C10
 #print axioms PW.Props.C10.refused_shrink_unchanged
 #print axioms PW.Props.C10.ladder_cutoff
 #print axioms PW.Props.C10.beam_splitter_cutoff
+#print axioms PW.Props.C10.allowed_shrink_keeps_every_occupied_level
+#print axioms PW.Props.C10.shrink_to_occupied_level_refused
+#print axioms PW.Props.C10.source_shrink_decisions
